@@ -74,6 +74,13 @@ def run(ctx):
     for fam, kw in [('cf1d', dict(ny=2, nx=5)), ('cf1d', dict(ny=5, nx=2)), ('cf2d', dict(ny=1, nx=4)),
                     ('cf2d', dict(ny=4, nx=1)), ('shoc_simple', dict(ny=3, nx=3)), ('shoc_standard', dict(nj=1, ni=3)),
                     ('shoc_standard', dict(nj=3, ni=1)), ('ugrid', dict(w=1, h=1)), ('ugrid', dict(w=3, h=2)),
+                    ('shoc_standard', dict(nj=3, ni=4, holes='corner', invalid=False, plain=True)),
+                    # meshes whose edges are known in less usual ways: only through edge_face while the mesh attributes still name
+                    # an edge_node variable that is not in the file; an edge_dimension attribute with nothing stored on edges
+                    ('ugrid', dict(w=3, h=2, supplied={'edge_face'}, stale_attrs=('edge_node_connectivity',), edge_dim_declared=False,
+                                   transposed=False, invalid=False)),
+                    ('ugrid', dict(w=2, h=2, supplied=set(), edge_dim_declared=True, phantom_edge_dim=True, invalid=False)),
+                    ('ugrid', dict(w=2, h=3, supplied={'face_face'}, mesh_var_dim=True, invalid=False)),
                     ('cf1d', dict(ny=3, nx=12, global_lon=True, bounds=False)), ('cf1d', dict(ny=2, nx=8, global_lon=True, bounds=True))]:
         datasets.append(gen.any_dataset(rng, fam, **kw))
     while len(datasets) < n_ds:
@@ -85,6 +92,8 @@ def run(ctx):
     # data variables are not part of the index arithmetic: every other dataset carries, as its FIRST data variable, one
     # that lists the surface dimensions in reverse order ((lon, lat): legal), every fourth is held column-major in memory
     for k, d in enumerate(datasets):
+        if 'plain ArakawaC' in d.spec['label']:
+            continue          # bound by hand: a new Dataset object would not carry the binding
         if k % 2 == 1:
             d.ds = gen.leading_reversed_var(rng, d.ds, d.spec['kinds'])
             ctx.count('first_data_variable:surface dimensions reversed')
